@@ -5142,7 +5142,7 @@ class SymbolTable(dict[str, SymbolTableNode]):
             # module that gets added to every module by
             # SemanticAnalyzerPass2.visit_file(), but it shouldn't be
             # accessed by users of the module.
-            if key == "__builtins__" or value.no_serialize:
+            if (key == "__builtins__" and isinstance(value.node, MypyFile)) or value.no_serialize:
                 continue
             data[key] = value.serialize(fullname, key)
         return data
@@ -5163,7 +5163,7 @@ class SymbolTable(dict[str, SymbolTableNode]):
             # module that gets added to every module by
             # SemanticAnalyzerPass2.visit_file(), but it shouldn't be
             # accessed by users of the module.
-            if key == "__builtins__" or value.no_serialize:
+            if (key == "__builtins__" and isinstance(value.node, MypyFile)) or value.no_serialize:
                 continue
             size += 1
         # We intentionally tag SymbolTable as a simple dictionary str -> SymbolTableNode.
@@ -5171,7 +5171,7 @@ class SymbolTable(dict[str, SymbolTableNode]):
         write_int_bare(data, size)
         for key in sorted(self):
             value = self[key]
-            if key == "__builtins__" or value.no_serialize:
+            if (key == "__builtins__" and isinstance(value.node, MypyFile)) or value.no_serialize:
                 continue
             write_str_bare(data, key)
             value.write(data, fullname, key)
